@@ -111,7 +111,8 @@ def wide_slot(a, n):
         return None
     first = n == 1 and a.offset % 4 == 0
     if first or (a.tier == "thorough" and n % 25 == 0):
-        return {"scenario": "wide", "wide_size": "big" if ((a.offset // 4) + n) % 2 == 1 else "small"}
+        big = ((a.offset // 4) + n) % 2 == 1 and a.deadline >= 40  # 2048 dimensions: about 45 s
+        return {"scenario": "wide", "wide_size": "big" if big else "small"}
     return None
 
 
